@@ -1,7 +1,7 @@
 (* C04 -- mixed templates compose: literals verbatim, each section evaluated independently.
    GENERATED from Properties/src/C04.props by tools/mkprops.py; property theorems only. *)
 From SP Require Import Model.Template Model.Scanner.
-From SP Require Import Proofs.ImplSpec Proofs.TemplateP Proofs.TemplateLaws Proofs.MapSepP Proofs.ScannerP.
+From SP Require Import Proofs.ImplSpec Proofs.TemplateP Proofs.TemplateLaws Proofs.MapSepP Proofs.ScannerP Proofs.FormatLawsP.
 From SP Require Import Model.Syntax Proofs.BlockSynP Proofs.FullSynP Proofs.MultiSynP.
 
 (* format() -- both copies of the section loop, the per-call memo, the fast split
@@ -101,6 +101,43 @@ Check C04_section_error_fails_the_call :
   spec_run E ops x = Err -> (forall s, In s s1 -> exists o, seg_out E x s = Ok o) ->
   spec_format E (s1 ++ Sec ops :: s2) x = Err.
 Print Assumptions C04_section_error_fails_the_call.
+
+(* a template without sections yields its literals, verbatim and in order, whatever the input *)
+Theorem C04_literals_only :
+  forall (E : Env) (secs : list section) (x : str),
+  forallb (fun s => negb (is_sec s)) secs = true ->
+  spec_format E secs x = Ok (concat (map lit_text secs)).
+Proof. exact literals_only. Qed.
+Check C04_literals_only :
+  forall (E : Env) (secs : list section) (x : str),
+  forallb (fun s => negb (is_sec s)) secs = true ->
+  spec_format E secs x = Ok (concat (map lit_text secs)).
+Print Assumptions C04_literals_only.
+
+(* the formatted text is the concatenation of one piece per part, each piece being
+   exactly what that part yields alone on the input *)
+Theorem C04_result_is_the_pieces :
+  forall (E : Env) (secs : list section) (x out : str),
+  spec_format E secs x = Ok out <->
+  exists pieces, Forall2 (fun s p => seg_out E x s = Ok p) secs pieces /\ out = concat pieces.
+Proof. exact format_ok_iff. Qed.
+Check C04_result_is_the_pieces :
+  forall (E : Env) (secs : list section) (x out : str),
+  spec_format E secs x = Ok out <->
+  exists pieces, Forall2 (fun s p => seg_out E x s = Ok p) secs pieces /\ out = concat pieces.
+Print Assumptions C04_result_is_the_pieces.
+
+(* nothing but the sections' own results reaches the output *)
+Theorem C04_only_section_results_matter :
+  forall (E : Env) (secs : list section) (x y : str),
+  (forall ops, In (Sec ops) secs -> spec_run E ops x = spec_run E ops y) ->
+  spec_format E secs x = spec_format E secs y.
+Proof. exact format_depends_on_section_results. Qed.
+Check C04_only_section_results_matter :
+  forall (E : Env) (secs : list section) (x y : str),
+  (forall ops, In (Sec ops) secs -> spec_run E ops x = spec_run E ops y) ->
+  spec_format E secs x = spec_format E secs y.
+Print Assumptions C04_only_section_results_matter.
 
 (* inside one call a memo hit returns what recomputation would: the key compares
    the input and the operations themselves *)
